@@ -71,7 +71,8 @@ structure Instr where
   opd2        : Operand := {}
   opd3        : Operand := {}
   kw          : Keywords := {}
-  opt         : Nat  := 0           -- assembly_opt (uint8_t)
+  narrowOk    : Bool := false       -- an immediate was written in hex with < 18 characters (what the
+                                    -- SMART rule of imm_tok looks at; see Impl.effNasm)
   imm         : Bool := false
   reducedImm  : Bool := false
   cons        : Nat  := 0           -- unsigned long  (< 2^64)
